@@ -221,6 +221,7 @@ func (rs *RequestServer) Serve() error {
 
 func (rs *RequestServer) packetWorker(ctx context.Context, pktChan chan orderedRequest) error {
 	for pkt := range pktChan {
+		simYield("rs.worker", uint64(pkt.orderID()))
 		orderID := pkt.orderID()
 		if epkt, ok := pkt.requestPacket.(*sshFxpExtendedPacket); ok {
 			if epkt.SpecificPacket != nil {
